@@ -12,7 +12,7 @@ if s.count(old)!=1:
 open(p,'w').write(s.replace(old,new))
 PY
 for p in "$@"; do
-  VERIF_REPO=$WT /verif/check $p > /tmp/_try.out 2>&1; rc=$?
+  VERIF_EVIDENCE_DIR=/tmp/ev_scratch VERIF_REPO=$WT /verif/check $p > /tmp/_try.out 2>&1; rc=$?
   echo "== edit of $F, check $p exit=$rc"
   grep -E "^VIOLATION|^ANALYSIS-ERROR|^KNOWN|obligation:" /tmp/_try.out | head -${MAXL:-6}
 done
